@@ -274,8 +274,13 @@ func genC15(rng *rand.Rand, n int, thorough bool, emit func(string)) {
 			emit("RT " + script)
 			emitted++
 		case k < 14:
-			emit("UT " + hx(genWireText(rng)))
+			txt := hx(genWireText(rng))
+			emit("UT " + txt)
 			emitted++
+			if rng.Intn(2) == 0 {
+				emit("GUT " + txt) // the same text through UnmarshalText as translated (Gen/Unmarshal.lean)
+				emitted++
+			}
 		default:
 			// a fault at every Write call of the encoding (and one past the end, and none)
 			cw := &countWriter{}
